@@ -109,13 +109,14 @@ def variants_for(prop: str) -> List[Dict[str, Any]]:
     out.append({'name': 'generated twin: every guard clause `if c: ...; return` + rest rewritten as if/else', 'kind': 'twin', 'generator': 'guard2else'})
     # independent behaviour-preserving refactorings (seeded/_twins): each runs against its own property and against every property whose check
     # raised an alarm on it when it was first measured
-    tw_index = SEEDED / '_twins' / 'index.json'
-    if tw_index.exists():
-        for tid, info in sorted(json.loads(tw_index.read_text()).items()):
-            if prop == info.get('own') or prop in info.get('alarmed_at_first_measurement', []):
-                pd = SEEDED / '_twins' / tid / 'patch.diff'
-                if pd.exists():
-                    out.append({'name': f'independent refactoring {tid}', 'kind': 'twin', 'patch': str(pd)})
+    for tw_dir in ('_twins', '_twins2'):
+        tw_index = SEEDED / tw_dir / 'index.json'
+        if tw_index.exists():
+            for tid, info in sorted(json.loads(tw_index.read_text()).items()):
+                if prop == info.get('own') or prop in info.get('alarmed_at_first_measurement', []):
+                    pd = SEEDED / tw_dir / tid / 'patch.diff'
+                    if pd.exists():
+                        out.append({'name': f'independent refactoring {tid}', 'kind': 'twin', 'patch': str(pd)})
     if SEEDED.is_dir():
         for d in sorted(SEEDED.iterdir()):
             m = d / 'meta.json'
